@@ -137,19 +137,22 @@ Guard(vs, ok) == LET b == FirstBad(vs, 1, None)
 (* ------------------------------------------------------------------------ *)
 (* value-level operations                                                    *)
 (* ------------------------------------------------------------------------ *)
+\* the language's integers are 128-bit: a result outside that range is an overflow error
+NumOrOverflow(n) == IF FitsI128(n) THEN Num(n) ELSE Err("overflow")
+AssetOrOverflow(v) == IF \A c \in DOMAIN v : FitsI128(v[c]) THEN AssetVal(v) ELSE Err("overflow")
 ValAdd(x, y) ==
-    IF x.k = "number" /\ y.k = "number" THEN Num(Add(x.num, y.num))
-    ELSE IF x.k = "assetval" /\ y.k = "assetval" THEN AssetVal(VAdd(x.val, y.val))
+    IF x.k = "number" /\ y.k = "number" THEN NumOrOverflow(Add(x.num, y.num))
+    ELSE IF x.k = "assetval" /\ y.k = "assetval" THEN AssetOrOverflow(VAdd(x.val, y.val))
     ELSE IF x.k = "none" \/ y.k = "none" THEN Unspec
     ELSE Err("add")
 ValNeg(x) ==
-    IF x.k = "number" THEN Num(Neg(x.num))
-    ELSE IF x.k = "assetval" THEN AssetVal(VNeg(x.val))
+    IF x.k = "number" THEN NumOrOverflow(Neg(x.num))
+    ELSE IF x.k = "assetval" THEN AssetOrOverflow(VNeg(x.val))
     ELSE IF x.k = "none" THEN Unspec
     ELSE Err("neg")
 ValSub(x, y) ==
-    IF x.k = "number" /\ y.k = "number" THEN Num(Sub(x.num, y.num))
-    ELSE IF x.k = "assetval" /\ y.k = "assetval" THEN AssetVal(VSub(x.val, y.val))
+    IF x.k = "number" /\ y.k = "number" THEN NumOrOverflow(Sub(x.num, y.num))
+    ELSE IF x.k = "assetval" /\ y.k = "assetval" THEN AssetOrOverflow(VSub(x.val, y.val))
     ELSE IF x.k = "none" \/ y.k = "none" THEN Unspec
     ELSE Err("sub")
 ValConcat(x, y) ==
